@@ -215,3 +215,16 @@ package stateful
 //@   requires e != nil && e.leftEvaluator != nil && e.rightEvaluator != nil
 //@   ensures [dynamic-respecialises] old(e.leftEvaluator.IsDynamic() || e.rightEvaluator.IsDynamic()) ==> called(evaluateDynamicNode) && !called(eval)
 //@   ensures [static-uses-compiled-entry] !old(e.leftEvaluator.IsDynamic() || e.rightEvaluator.IsDynamic()) ==> called(eval) && !called(evaluateDynamicNode)
+
+// Type of a dynamic binary node: the operand types of THIS scope are read and stored in the node
+// (the typed entry points' type-guard retry looks the operator up with the stored types: a
+// stale stored type makes the result depend on the field types seen before).
+//@ func (*EvalBinaryNode).determineError
+//@   trusted
+//@   modifies nothing
+//@ func (*EvalBinaryNode).Type
+//@   props C04
+//@   requires n != nil && n.leftEvaluator != nil && n.rightEvaluator != nil
+//@   ensures [operand-types-refreshed] n.constReturnType == ast.InvalidType && result1 == nil ==>
+//@       n.leftType == callresult(n.leftEvaluator.Type, 0) && n.rightType == callresult(n.rightEvaluator.Type, 0)
+//@   ensures n.constReturnType != ast.InvalidType ==> result0 == n.constReturnType && result1 == nil
